@@ -94,6 +94,34 @@ def well_formed(model):
   return pr
 
 
+def dtype_consistent(model):
+  """A Python-side proxy for "the interpreter can prepare the model": the
+  runtime (non-constant) float-or-quantized operands of an operator are either
+  all float32 or all of one quantized integer type (kernels reject mixtures,
+  e.g. an int8 FULLY_CONNECTED with a float input); QUANTIZE reads float or
+  integer and writes integer, DEQUANTIZE reads integer/float16 and writes
+  float."""
+  pr = []
+  act_types = (TT.FLOAT32, TT.INT8, TT.INT16)
+  for si, sg in enumerate(model.subgraphs):
+    for oi, op in enumerate(sg.operators):
+      code = model.operatorCodes[op.opcodeIndex].builtinCode
+      if code in (BO.QUANTIZE, BO.DEQUANTIZE, BO.CAST):
+        continue
+      kinds = set()
+      for i in list(op.inputs) + list(op.outputs):
+        if i == -1 or not 0 <= i < len(sg.tensors):
+          continue
+        t = sg.tensors[i]
+        if t.type not in act_types or has_data(model, t):
+          continue
+        kinds.add(t.type)
+      if len(kinds) > 1:
+        pr.append(f'sg{si} op {oi}: runtime operands mix dtypes '
+                  f'{sorted(int(k) for k in kinds)}')
+  return pr
+
+
 def _code(model, op):
   return model.operatorCodes[op.opcodeIndex].builtinCode
 
